@@ -584,3 +584,14 @@ add("D7b", "break", CORE, "GroupBy.var", "return (sq_sum - sum_sq / count) / (co
 add("D7b", "break", CORE, "GroupBy.std", "GroupBy.var(**locals()) ** 0.5", "GroupBy.var(**locals()) ** 2", name="D7b std squares the variance")
 add("D7b", "keep", CORE, "GroupBy.var", "return (sq_sum - sum_sq / count) / (count - ddof)", "numerator = sq_sum - sum_sq / count\n        return np.maximum(numerator, 0.0) / (count - ddof)", name="D7b numerator in a local, clamped with np.maximum")
 add("D7b", "keep", CORE, "GroupBy.var", "return (sq_sum - sum_sq / count) / (count - ddof)", "return (-(sum_sq / count) + sq_sum) / (-ddof + count)", name="D7b terms commuted")
+
+# --------------------------------------------------------------------------------------------- L1 L2
+ARGS = "argsort_index_numeric_only"
+add("L1", "break", UTIL, ARGS, "codes_for_sorting.append(np.argsort(level.argsort())[codes])", "codes_for_sorting.append(level.argsort()[codes])", name="L1 permutation used instead of rank")
+add("L1", "break", UTIL, ARGS, "return pd.core.sorting.lexsort_indexer(codes_for_sorting)", "return pd.core.sorting.lexsort_indexer(codes_for_sorting[::-1])", name="L1 levels sorted in reverse priority")
+add("L1", "break", UTIL, ARGS, "if isinstance(index.dtype, pd.CategoricalDtype) or index.is_monotonic_increasing:", "if isinstance(index.dtype, pd.CategoricalDtype) or index.is_monotonic_decreasing:", name="L1 decreasing labels taken for sorted")
+add("L1", "break", CORE, "GroupBy._labels_argsort", "if self._sort and (not self._index_is_sorted):", "if self._sort or (not self._index_is_sorted):", name="L1 labels sorted although sort=False")
+add("L1", "keep", UTIL, ARGS, "        if isinstance(index.dtype, pd.CategoricalDtype) or index.is_monotonic_increasing:\n            return slice(None)\n        else:\n            return index.argsort()\n", "        if isinstance(index.dtype, pd.CategoricalDtype) or index.is_monotonic_increasing:\n            return slice(None)\n        return index.argsort()\n", name="L1 else removed (fall-through return)")
+add("L2", "break", CORE, "GroupBy._maybe_squeeze_to_1d", "if n_values == 1 and isinstance(values, ArrayType1D)", "if n_values == 1 or isinstance(values, ArrayType1D)", name="L2 one-column frames squeezed too")
+add("L2", "break", CORE, "GroupBy._maybe_squeeze_to_1d", "if get_array_name(values) is None:", "if get_array_name(values) is not None:", name="L2 named inputs lose their name")
+add("L2", "break", CORE, "GroupBy._maybe_squeeze_to_1d", "result = result[result.columns[0]]", "result = result[result.columns[-1]].rename(None)", name="L2 wrong column / name always cleared", accept_error=True)
